@@ -380,7 +380,8 @@ class Ctx:
 
 
 def case_replay(case, what):
-    return {"kind": "case", "spec": G.spec_to_json(case["spec"]), "job": case["job"], "meta": case["meta"], "what": what}
+    spec = case.get("spec") or {}
+    return {"kind": "case", "spec": G.spec_to_json(spec) if "edges" in spec else spec, "job": case["job"], "meta": case["meta"], "what": what}
 
 
 def judge(case, rb, rn):
@@ -549,17 +550,23 @@ def record(cx, case, b, n):
 # --------------------------------------------------------------------------------------------
 # known findings
 
+def _fixed_case(c, cid):
+    job = dict(c["job"])
+    job["id"] = cid
+    job.setdefault("setup", G.SETUP)
+    return {"job": job, "meta": c["meta"], "spec": {"kind": "known", "name": c.get("name")}}
+
+
 def finding_cases(k):
+    return [(_fixed_case(c, "%s-%d" % (k["id"], i)), c) for i, c in enumerate(k.get("reproducer", {}).get("cases", []))]
+
+
+def neighbour_cases(findings):
+    """shapes next to the reproducers that hold on this tree (they delimit the avoided classes): ordinary cases"""
     out = []
-    for i, c in enumerate(k.get("reproducer", {}).get("cases", [])):
-        spec = G.spec_from_json(c["spec"]) if "spec" in c else None
-        if spec is not None:
-            case = G.build_case(spec, "%s-%d" % (k["id"], i))
-        else:
-            case = {"job": dict(c["job"]), "meta": c["meta"], "spec": {"kind": "known"}}
-            case["job"]["id"] = "%s-%d" % (k["id"], i)
-            case["job"].setdefault("setup", G.SETUP)
-        out.append((case, c))
+    for k in findings:
+        for i, c in enumerate(k.get("neighbours_that_hold", [])):
+            out.append(_fixed_case(c, "%s-nb%d" % (k["id"], i)))
     return out
 
 
@@ -671,8 +678,11 @@ def run(tier, seed):
     if not runner.node_available():
         chk.inconc("node-unavailable")
     r = Rng(seed, "c17")
+    nb = neighbour_cases(findings)
+    if nb:
+        process(cx, nb, "nb")
     n_exh, n_reps, n_node = stream_exhaustive(cx, 4 if thorough else 3, 60000 if thorough else 5000)
-    stream_random(cx, r.fork("random"), 40000 if thorough else 1500, avoid)
+    stream_random(cx, r.fork("random"), 40000 if thorough else 2500, avoid)
     replay_known(cx, findings)
     chk.assumptions = [
         "node 20's ESM loader (V8) is the reference for body order and outcomes; for graphs with dynamic import() the interleaving "
